@@ -26,7 +26,7 @@ CHECKS = {
  "C16": dict(
   text="Coq theorems (C16/Props.v): json.dumps(ensure_ascii) output is ASCII for every payload over the full code-point range, UTF-8 of ASCII is "
        "the identity, hence Content-Length = body byte length; the reader model splits any sequence of frames with any of three header layouts "
-       "and arbitrary body bytes into exactly the bodies sent; read(n)/readline over any chunking equal those over the whole stream, and so does every reader program built from them, _receive included (C16/Chunks.v); what _send writes back to back is decoded into exactly the serialised payloads; path_from_uri inverts path_to_uri; "
+       "and arbitrary body bytes into exactly the bodies sent; read(n)/readline over any chunking equal those over the whole stream, and so does every reader program built from them, _receive and the read loop included (C16/Chunks.v: any frames in any chunks are decoded into exactly the bodies sent); what _send writes back to back is decoded into exactly the serialised payloads; path_from_uri inverts path_to_uri; "
        "percent-encoding round-trips for all bytes / all code points. Model tied to fortls.jsonrpc by differential execution; independent framer as oracle.",
   note="Trusted: Coq kernel, vm_compute, correspondence run, CPython json/io.BufferedReader/urllib/pathlib. Not modelled: JSON structure parsing, floats, Path.resolve.",
   technique="Rocq proof (codec round trips, ASCII invariant by induction on JSON values) + model/implementation differential",
